@@ -1,0 +1,256 @@
+//go:build verif
+
+// Verification accessors for the /verif runtime-monitoring harness (domain
+// vtlscodec: properties C43 and C45). Compiled only with -tags verif.
+// Add-only: nothing here is referenced by production code.
+
+package bfe_tls
+
+// VerifRemovePadding runs removePadding on payload and reports how many
+// trailing bytes it removed and its constant-time "good" byte (255 = padding
+// accepted, 0 = bad record).
+func VerifRemovePadding(payload []byte) (removed int, good byte) {
+	out, g := removePadding(payload)
+	return len(payload) - len(out), g
+}
+
+// VerifRemovePaddingSSL30 is the same for the SSL 3.0 variant.
+func VerifRemovePaddingSSL30(payload []byte) (removed int, good byte) {
+	out, g := removePaddingSSL30(payload)
+	return len(payload) - len(out), g
+}
+
+// VerifMsg is an exported mirror of the fields of every handshake message
+// type (and sessionState). Only the fields of the message named by Kind are
+// meaningful; the others stay zero. SigAndHashes holds (hash, signature)
+// pairs flattened.
+type VerifMsg struct {
+	Kind string
+
+	// context flag of certificateRequestMsg / certificateVerifyMsg: set by
+	// the caller before unmarshal (TLS 1.2), not carried in the message
+	HasSigAndHash bool
+
+	Vers                uint16
+	Random              []byte
+	SessionId           []byte
+	CipherSuites        []uint16
+	CompressionMethods  []byte
+	NextProtoNeg        bool
+	ServerName          string
+	OcspStapling        bool
+	SupportedCurves     []uint16
+	SupportedPoints     []byte
+	TicketSupported     bool
+	SessionTicket       []byte
+	SigAndHashes        []byte
+	SecureRenegotiation bool
+	AlpnProtocols       []string
+	Padding             bool     // derived by clientHello unmarshal only
+	ExtensionIds        []uint16 // derived by clientHello unmarshal only
+
+	CipherSuite       uint16
+	CompressionMethod uint8
+	NextProtos        []string
+	AlpnProtocol      string
+
+	Certificates [][]byte
+
+	Key []byte
+
+	StatusType uint8
+	Response   []byte
+
+	Ciphertext []byte
+
+	VerifyData []byte
+
+	Proto string
+
+	CertificateTypes       []byte
+	CertificateAuthorities [][]byte
+
+	SigAndHash [2]byte
+	Signature  []byte
+
+	Ticket []byte
+
+	MasterSecret []byte
+}
+
+type verifMessage interface {
+	marshal() []byte
+	unmarshal([]byte) bool
+}
+
+// VerifMsgKinds lists every message kind the accessors understand.
+func VerifMsgKinds() []string {
+	return []string{
+		"clientHello", "serverHello", "certificate", "serverKeyExchange",
+		"certificateStatus", "serverHelloDone", "clientKeyExchange", "finished",
+		"nextProto", "certificateRequest", "certificateVerify", "newSessionTicket",
+		"sessionState",
+	}
+}
+
+func verifSigPairs(b []byte) []signatureAndHash {
+	if b == nil {
+		return nil
+	}
+	out := make([]signatureAndHash, len(b)/2)
+	for i := range out {
+		out[i] = signatureAndHash{hash: b[2*i], signature: b[2*i+1]}
+	}
+	return out
+}
+
+func verifSigBytes(s []signatureAndHash) []byte {
+	if s == nil {
+		return nil
+	}
+	out := make([]byte, 0, 2*len(s))
+	for _, x := range s {
+		out = append(out, x.hash, x.signature)
+	}
+	return out
+}
+
+// verifBuild constructs the internal message (raw == nil) from v.
+func verifBuild(v *VerifMsg) verifMessage {
+	switch v.Kind {
+	case "clientHello":
+		m := &clientHelloMsg{
+			vers: v.Vers, random: v.Random, sessionId: v.SessionId,
+			cipherSuites: v.CipherSuites, compressionMethods: v.CompressionMethods,
+			nextProtoNeg: v.NextProtoNeg, serverName: v.ServerName, ocspStapling: v.OcspStapling,
+			supportedPoints: v.SupportedPoints, ticketSupported: v.TicketSupported,
+			sessionTicket: v.SessionTicket, signatureAndHashes: verifSigPairs(v.SigAndHashes),
+			secureRenegotiation: v.SecureRenegotiation, alpnProtocols: v.AlpnProtocols,
+		}
+		if v.SupportedCurves != nil {
+			m.supportedCurves = make([]CurveID, len(v.SupportedCurves))
+			for i, c := range v.SupportedCurves {
+				m.supportedCurves[i] = CurveID(c)
+			}
+		}
+		return m
+	case "serverHello":
+		return &serverHelloMsg{
+			vers: v.Vers, random: v.Random, sessionId: v.SessionId,
+			cipherSuite: v.CipherSuite, compressionMethod: v.CompressionMethod,
+			nextProtoNeg: v.NextProtoNeg, nextProtos: v.NextProtos, ocspStapling: v.OcspStapling,
+			ticketSupported: v.TicketSupported, secureRenegotiation: v.SecureRenegotiation,
+			alpnProtocol: v.AlpnProtocol,
+		}
+	case "certificate":
+		return &certificateMsg{certificates: v.Certificates}
+	case "serverKeyExchange":
+		return &serverKeyExchangeMsg{key: v.Key}
+	case "certificateStatus":
+		return &certificateStatusMsg{statusType: v.StatusType, response: v.Response}
+	case "serverHelloDone":
+		return &serverHelloDoneMsg{}
+	case "clientKeyExchange":
+		return &clientKeyExchangeMsg{ciphertext: v.Ciphertext}
+	case "finished":
+		return &finishedMsg{verifyData: v.VerifyData}
+	case "nextProto":
+		return &nextProtoMsg{proto: v.Proto}
+	case "certificateRequest":
+		return &certificateRequestMsg{
+			hasSignatureAndHash: v.HasSigAndHash, certificateTypes: v.CertificateTypes,
+			signatureAndHashes:     verifSigPairs(v.SigAndHashes),
+			certificateAuthorities: v.CertificateAuthorities,
+		}
+	case "certificateVerify":
+		return &certificateVerifyMsg{
+			hasSignatureAndHash: v.HasSigAndHash,
+			signatureAndHash:    signatureAndHash{hash: v.SigAndHash[0], signature: v.SigAndHash[1]},
+			signature:           v.Signature,
+		}
+	case "newSessionTicket":
+		return &newSessionTicketMsg{ticket: v.Ticket}
+	case "sessionState":
+		return &sessionState{
+			vers: v.Vers, cipherSuite: v.CipherSuite, masterSecret: v.MasterSecret,
+			certificates: v.Certificates,
+		}
+	}
+	return nil
+}
+
+// verifExport mirrors the internal message into a VerifMsg.
+func verifExport(kind string, hasSigAndHash bool, x verifMessage) *VerifMsg {
+	v := &VerifMsg{Kind: kind, HasSigAndHash: hasSigAndHash}
+	switch m := x.(type) {
+	case *clientHelloMsg:
+		v.Vers, v.Random, v.SessionId = m.vers, m.random, m.sessionId
+		v.CipherSuites, v.CompressionMethods = m.cipherSuites, m.compressionMethods
+		v.NextProtoNeg, v.ServerName, v.OcspStapling = m.nextProtoNeg, m.serverName, m.ocspStapling
+		if m.supportedCurves != nil {
+			v.SupportedCurves = make([]uint16, len(m.supportedCurves))
+			for i, c := range m.supportedCurves {
+				v.SupportedCurves[i] = uint16(c)
+			}
+		}
+		v.SupportedPoints, v.TicketSupported, v.SessionTicket = m.supportedPoints, m.ticketSupported, m.sessionTicket
+		v.SigAndHashes = verifSigBytes(m.signatureAndHashes)
+		v.SecureRenegotiation, v.AlpnProtocols = m.secureRenegotiation, m.alpnProtocols
+		v.Padding, v.ExtensionIds = m.padding, m.extensionIds
+	case *serverHelloMsg:
+		v.Vers, v.Random, v.SessionId = m.vers, m.random, m.sessionId
+		v.CipherSuite, v.CompressionMethod = m.cipherSuite, m.compressionMethod
+		v.NextProtoNeg, v.NextProtos, v.OcspStapling = m.nextProtoNeg, m.nextProtos, m.ocspStapling
+		v.TicketSupported, v.SecureRenegotiation, v.AlpnProtocol = m.ticketSupported, m.secureRenegotiation, m.alpnProtocol
+	case *certificateMsg:
+		v.Certificates = m.certificates
+	case *serverKeyExchangeMsg:
+		v.Key = m.key
+	case *certificateStatusMsg:
+		v.StatusType, v.Response = m.statusType, m.response
+	case *serverHelloDoneMsg:
+	case *clientKeyExchangeMsg:
+		v.Ciphertext = m.ciphertext
+	case *finishedMsg:
+		v.VerifyData = m.verifyData
+	case *nextProtoMsg:
+		v.Proto = m.proto
+	case *certificateRequestMsg:
+		v.HasSigAndHash = m.hasSignatureAndHash
+		v.CertificateTypes = m.certificateTypes
+		v.SigAndHashes = verifSigBytes(m.signatureAndHashes)
+		v.CertificateAuthorities = m.certificateAuthorities
+	case *certificateVerifyMsg:
+		v.HasSigAndHash = m.hasSignatureAndHash
+		v.SigAndHash = [2]byte{m.signatureAndHash.hash, m.signatureAndHash.signature}
+		v.Signature = m.signature
+	case *newSessionTicketMsg:
+		v.Ticket = m.ticket
+	case *sessionState:
+		v.Vers, v.CipherSuite, v.MasterSecret, v.Certificates = m.vers, m.cipherSuite, m.masterSecret, m.certificates
+	}
+	return v
+}
+
+// VerifMarshal builds the message described by v (no cached raw bytes) and
+// returns marshal() of it. It returns nil for an unknown kind.
+func VerifMarshal(v *VerifMsg) []byte {
+	m := verifBuild(v)
+	if m == nil {
+		return nil
+	}
+	return m.marshal()
+}
+
+// VerifUnmarshal runs unmarshal of the message type named by kind on data
+// (hasSigAndHash is the TLS 1.2 context flag of certificateRequest /
+// certificateVerify) and mirrors the parsed fields. The returned slices alias
+// data, exactly as the parsed message does.
+func VerifUnmarshal(kind string, hasSigAndHash bool, data []byte) (*VerifMsg, bool) {
+	m := verifBuild(&VerifMsg{Kind: kind, HasSigAndHash: hasSigAndHash})
+	if m == nil {
+		return nil, false
+	}
+	ok := m.unmarshal(data)
+	return verifExport(kind, hasSigAndHash, m), ok
+}
